@@ -555,7 +555,7 @@ func run(t0 time.Time) int {
 					}
 				}
 			}
-			if o.Res.Status != "sat" && o.Res.Status != "unsat" && *flagTier != "thorough" {
+			if o.Res.Status == "timeout" && *flagTier != "thorough" {
 				// last resort before an obligation is reported: once more with three times the budget, so that a
 				// loaded machine does not turn a slow proof into an alarm
 				if r, all := solveFile(file, 3*budget, lambda); r.Status == "unsat" || r.Status == "sat" {
@@ -813,6 +813,15 @@ func writeEvidence(g *G, prop string, results []*FuncResult, obls []*Obl, nObl, 
 		samples = append(samples, map[string]interface{}{"obligation": o.Name, "kind": o.Kind, "at": fmt.Sprintf("%s:%d", shortFile(o.Pos.Filename), o.Pos.Line),
 			"status": o.Res.Status, "solver": o.Res.Solver, "secs": o.Res.Secs, "smt_goal": goal})
 	}
+	// the complete list of obligations with their outcome (vacuity probes included, marked as such)
+	var full []interface{}
+	for _, o := range obls {
+		ent := map[string]interface{}{"obligation": o.Name, "kind": o.Kind, "status": o.Res.Status, "solver": o.Res.Solver, "secs": float64(int(o.Res.Secs*100)) / 100}
+		if o.Expect == "sat" {
+			ent["probe"] = "vacuity probe: expected satisfiable; unsat would mean vacuous"
+		}
+		full = append(full, ent)
+	}
 	var kh, vs []string
 	for _, o := range knownHits {
 		kh = append(kh, o.Name)
@@ -836,6 +845,7 @@ func writeEvidence(g *G, prop string, results []*FuncResult, obls []*Obl, nObl, 
 		"abstractions":             keys(abstr),
 		"vacuity":                  map[string]int{"checks": vacChecks, "passed": vacOK},
 		"samples":                  samples,
+		"obligation_list":          full,
 		"known_findings":           kh,
 		"violating_obligations":    vs,
 		"undecided":                undecided,
